@@ -17,6 +17,7 @@
 #include <stdarg.h>
 #include <signal.h>
 #include <limits.h>
+#include <pthread.h>
 #include <string.h>
 #include <sys/syscall.h>
 #include <sys/time.h>
@@ -35,6 +36,7 @@ static bool g_scripted = false;
 static int64_t g_scriptedUs = 0;
 static int g_clockCalls = 0;
 static int64_t g_lastUs = 0;
+static int g_childFd = -1;   // >= 0 in a forked child: the pipe to the driver
 
 extern "C" int gettimeofday(struct timeval* __restrict tv, void* __restrict) __THROW {
   int64_t us;
@@ -47,6 +49,12 @@ extern "C" int gettimeofday(struct timeval* __restrict tv, void* __restrict) __T
   }
   ++g_clockCalls;
   g_lastUs = us;
+  if (g_childFd >= 0) {
+    // reported at once: the child may abort before it returns from the logging statement
+    char b[96];
+    int n = snprintf(b, sizeof b, "C %d %" PRId64 "\n", g_clockCalls, us);
+    ssize_t k = ::write(g_childFd, b, static_cast<size_t>(n)); (void)k;
+  }
   tv->tv_sec = static_cast<time_t>(us / 1000000);
   tv->tv_usec = static_cast<suseconds_t>(us % 1000000);
   return 0;
@@ -189,14 +197,30 @@ static void writeAll(int fd, const std::string& s) {
   }
 }
 
-static int g_childFd = -1;
 static void childCapture(const char* msg, int len) {
   // one record per call, sent at once so that it survives abort()
   std::string rec = "O " + toHex(std::string(msg, len)) + "\n";
   writeAll(g_childFd, rec);
 }
 
-static void runForked(const std::function<void()>& f, Result* res) {
+// what the child of runForked does with the action: run it on the thread that returned from fork(), or on a thread
+// made with pthread_create (NOT muduo::Thread: nothing of muduo has run on it) as that thread's first muduo call
+// (kRawFirst) / after the thread called CurrentThread::tid() itself (kRawAfterTid)
+enum ChildMode { kForkMain, kRawFirst, kRawAfterTid };
+
+struct RawArg { const std::function<void()>* f; bool callTid; };
+
+static void* rawThreadMain(void* p) {
+  RawArg* a = static_cast<RawArg*>(p);
+  if (a->callTid) muduo::CurrentThread::tid();
+  char b[96];
+  snprintf(b, sizeof b, "T %ld\n", static_cast<long>(::syscall(SYS_gettid)));
+  writeAll(g_childFd, b);
+  (*a->f)();
+  return NULL;
+}
+
+static void runForked(const std::function<void()>& f, Result* res, ChildMode mode = kForkMain) {
   int p[2];
   if (pipe(p) != 0) { perror("pipe"); exit(2); }
   fflush(stdout);
@@ -207,12 +231,18 @@ static void runForked(const std::function<void()>& f, Result* res) {
     Logger::setOutput(childCapture);
     g_clockCalls = 0;
     char b[96];
-    snprintf(b, sizeof b, "T %ld\n", static_cast<long>(::syscall(SYS_gettid)));
-    writeAll(g_childFd, b);
-    // a FATAL line ends the child inside f() (abort): the records sent so far survive
-    f();
-    snprintf(b, sizeof b, "C %d %" PRId64 "\n", g_clockCalls, g_lastUs);
-    writeAll(g_childFd, b);
+    // a FATAL line / a failing assert ends the child inside f() (abort): the records sent so far survive
+    if (mode == kForkMain) {
+      snprintf(b, sizeof b, "T %ld\n", static_cast<long>(::syscall(SYS_gettid)));
+      writeAll(g_childFd, b);
+      f();
+    } else {
+      RawArg a = { &f, mode == kRawAfterTid };
+      pthread_t th;
+      if (pthread_create(&th, NULL, rawThreadMain, &a) != 0) _exit(3);
+      pthread_join(th, NULL);
+    }
+    writeAll(g_childFd, "E\n");
     _exit(0);
   }
   close(p[1]);
@@ -224,23 +254,16 @@ static void runForked(const std::function<void()>& f, Result* res) {
   int status = 0;
   waitpid(pid, &status, 0);
   res->aborted = WIFSIGNALED(status) && WTERMSIG(status) == SIGABRT;
-  bool haveClock = false;
+  if (!res->aborted && !(WIFEXITED(status) && WEXITSTATUS(status) == 0)) {
+    printf("<< child ended with status 0x%x\n", status);
+  }
   std::istringstream is(all);
   std::string line;
   while (std::getline(is, line)) {
     if (line.size() < 2) continue;
     if (line[0] == 'T') res->tid = strtol(line.c_str() + 2, NULL, 10);
     else if (line[0] == 'O') { std::string d; parseHex(line.substr(2), &d); res->out.push_back(d); }
-    else if (line[0] == 'C') {
-      haveClock = true;
-      sscanf(line.c_str() + 2, "%d %" SCNd64, &res->clockCalls, &res->us);
-    }
-  }
-  if (!haveClock) {
-    // the child aborted inside the action: the instant is the scripted one (a real-clock
-    // FATAL line is not offered by the protocol)
-    res->clockCalls = res->out.empty() ? 0 : 1;
-    res->us = g_scriptedUs;
+    else if (line[0] == 'C') sscanf(line.c_str() + 2, "%d %" SCNd64, &res->clockCalls, &res->us);
   }
 }
 
@@ -250,9 +273,15 @@ static void runThread(const std::function<void()>& f, Result* res) {
   t.join();
 }
 
+static bool isWhere(const std::string& w) {
+  return w == "main" || w == "thread" || w == "fork" || w == "raw0" || w == "raw1";
+}
+
 static void run(const std::string& where, const std::function<void()>& f, Result* res) {
   if (where == "main") runHere(f, res);
   else if (where == "thread") runThread(f, res);
+  else if (where == "raw0") runForked(f, res, kRawFirst);
+  else if (where == "raw1") runForked(f, res, kRawAfterTid);
   else runForked(f, res);
 }
 
@@ -416,6 +445,12 @@ static bool inDomain(int64_t us) {
 
 static void report(const Result& r, bool withSrc, int errShown) {
   printf("< tid %ld\n", r.tid);
+  printf("< ptid %ld\n", static_cast<long>(::syscall(SYS_gettid)));   // the driver's main thread
+#ifdef NDEBUG
+  printf("< asserts 0\n");
+#else
+  printf("< asserts 1\n");
+#endif
   if (r.clockCalls > 0) printf("< now %" PRId64 "\n", r.us);
   if (r.clockCalls > 1) printf("# clock-calls=%d\n", r.clockCalls);
   if (withSrc) printf("< src %s %d %s\n", toHex(g_macroFile).c_str(), g_macroLine, toHex(g_macroFunc).c_str());
@@ -470,7 +505,7 @@ int main() {
       Req r; long long v; int64_t us;
       const std::string& where = w[1];
       r.ctor = w[2];
-      if (!(where == "main" || where == "thread" || where == "fork")) { bad(); continue; }
+      if (!isWhere(where)) { bad(); continue; }
       if (!(r.ctor == "c2" || r.ctor == "c3" || r.ctor == "c4" || r.ctor == "cb" || r.ctor == "ct")) { bad(); continue; }
       if (!parseI(w[3], 0, 5, &v)) { bad(); continue; }
       r.level = static_cast<int>(v);
@@ -509,7 +544,7 @@ int main() {
       // macro <where> <m> <clock> <errno> <msg>
       long long m, e; int64_t us; std::string msg;
       const std::string& where = w[1];
-      if (!(where == "main" || where == "thread" || where == "fork")) { bad(); continue; }
+      if (!isWhere(where)) { bad(); continue; }
       if (!parseI(w[2], 0, 7, &m) || !clockOk(w[3], &us) || !parseI(w[4], 0, 4095, &e) || !parseBytes(w[5], &msg)) { bad(); continue; }
       bool fatal = (m == 5 || m == 7);
       if (fatal && (where != "fork" || w[3] == "now")) { reject(); continue; }
